@@ -239,6 +239,17 @@ def rule_ESC(ctx):
             r.fail(cn.key, 'else branch values', 'with colour off every colour attribute must be the empty string', loc=cn.loc(top[0]))
         else:
             r.ok('Colour else branch', {'instance': 'Colour.__new__', 'attributes': sorted(names_else)})
+        # the colour strings are CLASS attributes (shared by every Colour object), so they are right only if every construction
+        # re-assigns them: the if/else must sit on every path to a return of __new__ (no cached-instance early return)
+        if any(t.startswith('cls.') or t.startswith('Colour.') for t in names_if):
+            early = [x for x in own_walk(cn.node) if isinstance(x, ast.Return) and x.lineno < top[0].lineno]
+            nested = not any(top[0] is s for s in G.body_wo_doc(cn))
+            if early or nested:
+                r.fail(cn.key, early[0] if early else top[0], 'Colour keeps its strings in class attributes, which every construction must re-assign; this '
+                       'path returns without passing the `if use_colour` / else assignment, so the strings of an earlier construction (with colour on) '
+                       'stay in force after options.no_color is set', loc=cn.loc(early[0] if early else top[0]))
+            else:
+                r.ok('Colour assignment dominates every return')
     # constructions
     n_c = 0
     for f in m.funcs.values():
@@ -439,7 +450,14 @@ def rule_INTEX(ctx):
                 roots.append(ctx.node(f, cx))
     if len(names) < 10:
         raise AnalysisError(f'only {len(names)} integer dtypes in the registry (10 confirmed)')
-    par = ctx.reachable(roots)
+    # the value path: stop at constructors and promotions of the bitstring classes (they lead into every other codec,
+    # e.g. the scaled-dtype wrapper, which is not part of an integer interpretation)
+    generic = {'__new__', '__init__', '_initialise', '_create_from_bitstype', '_setauto', '_setauto_no_length_or_offset', 'fromstring'}
+
+    def value_edge(n, c, cs):
+        g = m.funcs[c[0]]
+        return not (g.name in generic and g.cls in FAMILY) and g.mod not in ('dtypes',)
+    par = ctx.reachable(roots, edge_filter=value_edge)
     seen = set()
     for node in par:
         k = node[0]
